@@ -174,9 +174,12 @@ prop("C08", lambda tier: [e1("c08", "harness/c08_uncond.c")],
      "single-slot SPSC hand-off of 1..3 items following the documented announce/CAS protocol, either side created first, x all schedules with <= K deviations")
 prop("C09", lambda tier: [e1("c09", "harness/c09_felock.c")],
      "single-slot mailbox with 1-2 producers, 1-2 consumers, 2-3 items, optional plain lock/unlock observer, x all schedules with <= K deviations")
-prop("C14", lambda tier: [e1("c14", "harness/c14_once.c"), e1wrap("c14p", "harness/c14_pthread.c", "ld")] + ([e1wrap("c14pdl", "harness/c14_pthread.c", "dl")] if tier == "thorough" else []),
+prop("C14", lambda tier: [e1("c14", "harness/c14_once.c"), e1wrap("c14p", "harness/c14_pthread.c", "ld"),
+                          binc("c14first", "engine/build_unit.sh c14first harness/c14_first.c", "build/c14first/c14first --stats {stats} --tier quick", "build/c14first/c14first --stats {stats} --tier thorough",
+                               "E3 seqmc (bounded exhaustive first-use cases, one process each)")] + ([e1wrap("c14pdl", "harness/c14_pthread.c", "dl")] if tier == "thorough" else []),
      "1-3 concurrent callers (+ main) + a late call x init routine in {plain, yields, blocks on a mutex, creates and joins a thread} x all schedules with <= K deviations; "
-     "c14p: pthread_once through the wrapping build on three adjacent 4-byte once-controls: all orders, nested calls from an init routine, concurrent callers")
+     "c14p: pthread_once through the wrapping build on three adjacent 4-byte once-controls: all orders, nested calls from an init routine, concurrent callers; "
+     "c14first: myth_once as the first library call of a process / after fini, with an init routine that creates callers of the same control")
 
 prop("C12", lambda tier: [e1("c12", "harness/c13_reap.c", harness_flags="-DPROP_C12")],
      "18 create/join/detach/try-join/timed-join programs with late joins after intervening creations and mixed stack sizes (default, 4K, 8K, 12K, 64K) "
